@@ -359,12 +359,12 @@ theorem mkSetOp_wf (s s' : Store α) (ser : Bool) (ms : List Nat) (k : Nat) (hwf
   split at h; · simp at h
   split at h; · simp at h
   simp at h; rw [← h.1]
-  refine wf_append s _ hwf ⟨le_refl _, by simp, fun xa hxa => by simp [List.getD, List.getElem?_append_left hxa]⟩ _ rfl ?_
+  refine wf_append s _ hwf ⟨by simp, by simp, fun xa hxa => by simp [List.getD, List.getElem?_append_left hxa]⟩ _ rfl ?_
   refine ⟨?_, by simp, by simp [List.getD], by simp⟩
   intro id hid
-  simp only [List.mem_map] at hid
-  obtain ⟨r, hr, rfl⟩ := hid
-  exact (hwf _ (rxns?_mem hrs r hr)).1
+  simp only [List.mem_map, List.mem_range] at hid
+  obtain ⟨j, hj, rfl⟩ := hid
+  simp; omega
 
 theorem itemOp_wf (s s' : Store α) (sid i : Nat) (k : Nat) (hwf : s.WF)
     (h : s.itemOp sid i = .ok (s', k)) : s'.WF := by
@@ -390,6 +390,32 @@ theorem setSetXOp_wf (s s' : Store α) (sid i : Nat) (x : α) (k : Nat) (hwf : s
   · simp at h; rw [← h.1]
     exact wf_same s _ hwf ⟨le_refl _, by simp, fun k _ => getD_set_length _ _ _ _ _⟩ rfl
   · simp at h
+
+theorem writeWindow_length (arr : List α) (off : Nat) (xs : List α) :
+    (writeWindow arr off xs).length = arr.length := by simp [writeWindow]
+
+theorem getD_set_length' {β : Type} (l : List (List β)) (xa : Nat) (v : List β) (k : Nat)
+    (hv : v.length = (l.getD xa []).length) :
+    ((l.set xa v).getD k []).length = (l.getD k []).length := by
+  by_cases hk : k = xa
+  · subst hk
+    by_cases hl : k < l.length
+    · simp [List.getD, hl] at hv ⊢; exact hv
+    · simp [List.getD, Nat.not_lt.mp hl]
+  · simp [List.getD, Ne.symm hk]
+
+theorem setSetXAllOp_wf (s s' : Store α) (sid : Nat) (xs : List α) (k : Nat) (hwf : s.WF)
+    (h : s.setSetXAllOp sid xs = .ok (s', k)) : s'.WF := by
+  unfold Store.setSetXAllOp at h
+  split at h; · simp at h
+  rename_i t ht
+  split at h
+  · simp at h; rw [← h.1]
+    exact wf_same s _ hwf ⟨le_refl _, by simp, fun k _ => getD_set_length' _ _ _ _ (writeWindow_length _ _ _)⟩ rfl
+  · split at h
+    · simp at h; rw [← h.1]
+      exact wf_same s _ hwf ⟨le_refl _, by simp, fun k _ => getD_set_length' _ _ _ _ (writeWindow_length _ _ _)⟩ rfl
+    · simp at h
 
 theorem reduceOp_wf (s s' : Store α) (sid : Nat) (order : List Nat) (k : Nat) (hwf : s.WF)
     (h : s.reduceOp sid order = .ok (s', k)) : s'.WF := by
@@ -654,6 +680,7 @@ theorem step_wf (s s' : Store α) (op : Op α) (k : Nat) (hwf : s.WF) (h : s.ste
     case reset a p => exact resetOp_wf s s' a p k hwf h
     case item sid i => exact itemOp_wf s s' sid i k hwf h
     case setSetX sid i x => exact setSetXOp_wf s s' sid i x k hwf h
+    case setSetXAll sid xs => exact setSetXAllOp_wf s s' sid xs k hwf h
     case reduce sid order => exact reduceOp_wf s s' sid order k hwf h
 
 /-- the store reached from `s` by a list of operations (failed operations change nothing) -/
